@@ -299,7 +299,18 @@ def peer(run, model):
     gmo, _ = vlib.run_lines_robust(model, gm, timeout=1500) if gm else ([], [])
     ng2 = 0
     ng2tie = 0
+    nrel = 0
     for d, b, mline, mo_ in zip(g2, go, gm, gmo):
+        cnt = re.search(r" ADL:(\d+) REL:(\d+)$", b)
+        if cnt:
+            b = b[:cnt.start()]
+            if cnt.group(1) != cnt.group(2):
+                nrel += 1
+                if nrel <= 2:
+                    run.violation("O7 the release callback ran %s times for %s coap_add_data_large_response calls"
+                                  % (cnt.group(2), cnt.group(1)),
+                                  "case: %s\nimpl : %s ADL:%s REL:%s\n" % (d, b, cnt.group(1), cnt.group(2)),
+                                  tag="peerg2rel%d" % nrel)
         if mo_ != b:
             ng2tie += 1
             if ng2tie <= 2:
@@ -316,6 +327,7 @@ def peer(run, model):
                               if ":!" in b else "scripted GET peer: driver crashed",
                               "case: %s\nimpl : %s\n" % (d, b), tag="peerg2_%d" % ng2)
     run.cov["peer_g2_cases"] = len(g2)
+    run.cov["peer_g2_release_mismatch"] = nrel
     run.cov["peer_g2_wrong"] = ng2
     run.cov["peer_g2_tie_disagreements"] = ng2tie
     run.cov["peer_cases"] = len(cases)
